@@ -216,3 +216,11 @@ func vIte(c bool, a, b int64) int64 {
 	}
 	return b
 }
+
+// vSliceOfLen: a byte slice of symbolic length whose content is irrelevant (never read).
+func vSliceOfLen(n int) []byte { return make([]byte, n) }
+
+// vChanPush preloads an environment channel with a value the peer will send.
+func vChanPush(ch interface{}, v interface{}) {
+	reflect.ValueOf(ch).Send(reflect.ValueOf(v))
+}
